@@ -70,7 +70,66 @@ func runC02(c *Ctx) {
 			})
 		}
 	}
-	if ins == nil || rewrite == nil || nodeSize == nil || limitF == nil || sizeF == nil {
+	// … or a method of the tree (t.limit(n)) computing the limit from fields it reads
+	var limitM *ssa.Function
+	var limitFields []*types.Var
+	if ins != nil && treeT != nil && limitF == nil {
+		for _, fn := range P.Methods("stree", "Tree") {
+			allInstrs(fn, func(in ssa.Instruction) {
+				call, ok := in.(*ssa.Call)
+				if !ok || staticCallee(&call.Call) != ins || fn == ins || limitM != nil {
+					return
+				}
+				for _, a := range call.Call.Args {
+					lc, ok := a.(*ssa.Call)
+					if !ok || len(fn.Params) == 0 || len(lc.Call.Args) < 2 || lc.Call.Args[0] != ssa.Value(fn.Params[0]) {
+						continue
+					}
+					if cal := staticCallee(&lc.Call); cal != nil && cal.Blocks != nil && cal.Signature.Recv() != nil && isIntType(lc.Type()) {
+						limitM = cal
+					}
+				}
+			})
+		}
+		if limitM != nil {
+			allInstrs(limitM, func(in ssa.Instruction) {
+				v, isV := in.(ssa.Value)
+				if !isV {
+					return
+				}
+				if base, f := loadedField(v); f != nil && base == ssa.Value(limitM.Params[0]) {
+					for _, g := range limitFields {
+						if sameField(g, f) {
+							return
+						}
+					}
+					limitFields = append(limitFields, f)
+				}
+			})
+		}
+	} else if limitF != nil {
+		limitFields = []*types.Var{limitF}
+	}
+	isLimitCall := func(v ssa.Value) bool {
+		call, ok := v.(*ssa.Call)
+		if !ok {
+			return false
+		}
+		if limitM != nil {
+			return staticCallee(&call.Call) == limitM
+		}
+		f := limitCallField(call)
+		return f != nil && sameField(f, limitF)
+	}
+	isLimitField := func(f *types.Var) bool {
+		for _, g := range limitFields {
+			if sameField(g, f) {
+				return true
+			}
+		}
+		return false
+	}
+	if ins == nil || rewrite == nil || nodeSize == nil || len(limitFields) == 0 || sizeF == nil {
 		c.undecided("ANCHOR", "stree.(*Tree).insert / rewrite / node.size / Tree.limit", 0, "anchor not found")
 		return
 	}
@@ -268,7 +327,7 @@ func runC02(c *Ctx) {
 		}
 	}
 	// (a3) the limit function installed by New is built from New's balance parameter
-	if nw := P.Func("stree", "", "New"); nw != nil && limitF != nil {
+	if nw := P.Func("stree", "", "New"); nw != nil {
 		var betaParam *ssa.Parameter
 		for _, p := range nw.Params {
 			if isIntType(p.Type()) {
@@ -286,8 +345,11 @@ func runC02(c *Ctx) {
 			if !ok {
 				return
 			}
-			if _, f := fieldVarOf(fa); !sameField(f, limitF) {
+			if _, f := fieldVarOf(fa); !isLimitField(f) {
 				return
+			}
+			if st.Val == ssa.Value(betaParam) && betaParam != nil {
+				return // the balance factor itself, which the limit method reads
 			}
 			call, ok := st.Val.(*ssa.Call)
 			if !ok || betaParam == nil {
@@ -309,6 +371,96 @@ func runC02(c *Ctx) {
 			}
 			c.sawFn(fnName(nw))
 			c.judge(uses, "R-DEPTH-BUDGET", "stree.New:limit built from the balance factor", st.Pos(), "the limit function is constructed from New's balance parameter", "the depth-limit function New installs is not built from the balance factor it was given (a constant or another value is passed): every tree gets the same limit whatever its balance factor")
+		})
+	}
+	// (a4) what the limit is computed from survives every method: a method that overwrites the whole tree value
+	// (*t = Tree{…}) carries the limit's fields over, and none of them is set to a constant after construction
+	c.rule("R-LIMIT-KEPT", 0, "no Tree method resets the fields the depth limit is computed from: a whole-value overwrite of the receiver copies them, no store of a constant")
+	for _, fn := range P.Methods("stree", "Tree") {
+		if len(fn.Params) == 0 {
+			continue
+		}
+		recv := ssa.Value(fn.Params[0])
+		fn := fn
+		allInstrs(fn, func(in ssa.Instruction) {
+			st, ok := in.(*ssa.Store)
+			if !ok {
+				return
+			}
+			if fa, ok := st.Addr.(*ssa.FieldAddr); ok && fa.X == recv {
+				if _, f := fieldVarOf(fa); isLimitField(f) {
+					if k, isK := st.Val.(*ssa.Const); isK {
+						c.sawFn(fnName(fn))
+						c.bad("R-LIMIT-KEPT", fnName(fn)+":store ."+f.Name(), st.Pos(), fmt.Sprintf("%s sets .%s, which the depth limit is computed from, to the constant %s: later insertions use a wrong limit (no rebalancing, or a panic)", fn.Name(), f.Name(), k.Name()))
+					}
+				}
+				return
+			}
+			if st.Addr != recv {
+				return
+			}
+			if _, zero := st.Val.(*ssa.Const); zero {
+				// *t = Tree{…} compiled as: zero the receiver, then set the listed fields in place
+				c.sawFn(fnName(fn))
+				for _, f := range limitFields {
+					var set *ssa.Store
+					allInstrs(fn, func(in2 ssa.Instruction) {
+						s2, ok := in2.(*ssa.Store)
+						if !ok || !dominatesInstr(st, s2) {
+							return
+						}
+						if fa, ok := s2.Addr.(*ssa.FieldAddr); ok && fa.X == recv {
+							if _, g := fieldVarOf(fa); sameField(g, f) {
+								set = s2
+							}
+						}
+					})
+					key := fnName(fn) + ":overwrite keeps ." + f.Name()
+					if set == nil {
+						c.bad("R-LIMIT-KEPT", key, st.Pos(), fmt.Sprintf("%s overwrites the whole tree with a value that leaves .%s zero: the depth limit of later insertions is computed from it (no rebalancing any more, or a nil function is called)", fn.Name(), f.Name()))
+						continue
+					}
+					base, g := loadedField(set.Val)
+					ldi, _ := set.Val.(ssa.Instruction)
+					c.judge(g != nil && sameField(g, f) && base == recv && ldi != nil && dominatesInstr(ldi, st), "R-LIMIT-KEPT", key, st.Pos(), "the new value takes ."+f.Name()+" from the old one", fmt.Sprintf("%s overwrites the whole tree and sets .%s to %s rather than to the tree's own .%s", fn.Name(), f.Name(), ksym(set.Val), f.Name()))
+				}
+				return
+			}
+			ld, ok := st.Val.(*ssa.UnOp)
+			if !ok || ld.Op != token.MUL {
+				return
+			}
+			lit, ok := ld.X.(*ssa.Alloc)
+			if !ok {
+				return
+			}
+			c.sawFn(fnName(fn))
+			for _, f := range limitFields {
+				var set ssa.Value
+				found := false
+				for _, r := range referrersOf(lit) {
+					fa, ok := r.(*ssa.FieldAddr)
+					if !ok {
+						continue
+					}
+					if _, g := fieldVarOf(fa); !sameField(g, f) {
+						continue
+					}
+					for _, r2 := range referrersOf(fa) {
+						if s2, ok := r2.(*ssa.Store); ok && s2.Addr == ssa.Value(fa) {
+							set, found = s2.Val, true
+						}
+					}
+				}
+				key := fnName(fn) + ":overwrite keeps ." + f.Name()
+				switch {
+				case !found:
+					c.bad("R-LIMIT-KEPT", key, st.Pos(), fmt.Sprintf("%s overwrites the whole tree with a value that leaves .%s zero: the depth limit of later insertions is computed from it (no rebalancing any more, or a nil function is called)", fn.Name(), f.Name()))
+				default:
+					base, g := loadedField(set)
+					c.judge(g != nil && sameField(g, f) && base == recv, "R-LIMIT-KEPT", key, st.Pos(), "the new value takes ."+f.Name()+" from the old one", fmt.Sprintf("%s overwrites the whole tree and sets .%s to %s rather than to the tree's own .%s", fn.Name(), f.Name(), ksym(set), f.Name()))
+				}
+			}
 		})
 	}
 	// (c) entry budget
@@ -333,7 +485,7 @@ func runC02(c *Ctx) {
 				if !ok {
 					return
 				}
-				if f := limitCallField(lim); f == nil || !sameField(f, limitF) || len(lim.Call.Args) == 0 {
+				if !isLimitCall(lim) || len(lim.Call.Args) == 0 {
 					return
 				}
 				a := lim.Call.Args[len(lim.Call.Args)-1]
@@ -410,7 +562,7 @@ func runC02(c *Ctx) {
 	limTest := false
 	for _, cm := range cmpsAt(rw.Block()) {
 		for _, v := range []ssa.Value{cm.X, cm.Y} {
-			if call, ok := v.(*ssa.Call); ok && limitCallField(call) != nil && sameField(limitCallField(call), limitF) {
+			if call, ok := v.(*ssa.Call); ok && isLimitCall(call) {
 				// height > limit(size)  ⇔  not (height <= limit)
 				if (cm.Y == v && (cm.Op == token.GTR || cm.Op == token.GEQ)) || (cm.X == v && (cm.Op == token.LSS || cm.Op == token.LEQ)) {
 					limTest = true
